@@ -1,4 +1,4 @@
-import SciVerif.Lemmas.C19g
+import SciVerif.Lemmas.C19i
 
 /-!
 # C19 — Exported configuration files carry the same values as the environment
@@ -85,33 +85,68 @@ example : ValOK Kind.int (.arr [.arr [.leaf (.i 1), .leaf (.i (-2))], .arr [.lea
 example : ValOK Kind.str (.arr [.leaf (.s (cs!"he said \"hi\", C:\\dir {c}"))]) := by
   simp [ValOK, ValsOK, ScalarOK]
 
-/-! ## declaration lines: `read_b (export_b param) = expected param` -/
+/-! ## whole files and declaration lines: `read_b (export_b …) = expected …` -/
 
-/-- full statement for one back-end: reading the whole exported file gives, for every selected
-    parameter, the symbol the property demands.  Proved below for every single declaration line of
-    the C, C++ and Rust back-ends (`…_line_partial`); the file framing (include guard / module
-    lines, splitting the text into lines, `#define` lines) is covered by the correspondence only. -/
-def C19_roundtrip_c_statement : Prop :=
-  ∀ (backend : Str), backend = bC ∨ backend = bCpp →
-  ∀ (o : COpts) (data : List Param) (text : Str),
-    (if backend = bC then exportC o data else exportCpp o data) = some text →
-    readC backend o.guard text = expected backend o.rename o.define (data.map (fun p =>
-      if o.define.contains p.name then
-        match p.value with
-        | .leaf (.b v) => { p with value := .leaf (.i (if v then 1 else 0)) }
-        | _ => p
-      else p))
+/-- **C**: for every list of selected parameters and all options (guard, `define` list, renaming),
+    reading the whole exported header — guard lines, the `<stdbool.h>` block when a boolean constant
+    is present, one `const` or `#define` line per parameter, `#endif` — gives exactly the expected
+    symbols in order: mapped name, the declared type `_parse_dtype` chose (`macro` for definitions),
+    shape, row-major value (booleans in `define` as 1 / 0).  Both sides are undefined exactly when some
+    node has no C type.  Hypotheses = the documented domain: names without `[` / blank / newline after
+    renaming, newline-free strings and guard, rectangular values without empty levels, `define` only
+    for scalars (a float token is never an integer numeral). -/
+theorem C19_roundtrip_c (o : COpts) (data : List Param) (hg : clean o.guard = true)
+    (hok : ∀ p ∈ data, ParamOKC o.rename o.define p) :
+    (exportC o data).bind (readC bC o.guard) = expected bC o.rename o.define (data.map (macroParam o.define)) :=
+  readC_exportC o data hg hok
 
-def C19_roundtrip_rust_statement : Prop :=
-  ∀ (ren : Bool) (data : List Param) (text : Str),
-    exportRust ren data = some text → readRust text = expected bRust ren [] data
+/-- **C++**: the same with `define`, `const` and `constexpr` selections -/
+theorem C19_roundtrip_cpp (o : COpts) (data : List Param) (hg : clean o.guard = true)
+    (hok : ∀ p ∈ data, ParamOKC o.rename o.define p) :
+    (exportCpp o data).bind (readC bCpp o.guard) = expected bCpp o.rename o.define (data.map (macroParam o.define)) :=
+  readC_exportCpp o data hg hok
+
+/-- **Rust**: reading the whole exported file gives the expected symbols of all parameters -/
+theorem C19_roundtrip_rust (ren : Bool) (data : List Param) (hok : ∀ p ∈ data, ParamOKRust ren p) :
+    (exportRust ren data).bind readRust = expected bRust ren [] data :=
+  readRust_exportRust ren data hok
+
+/-- the hypotheses are satisfiable by a non-trivial environment (a defined string with quote and
+    backslash, a boolean constant, a 2x3 integer matrix), and the round trip is not `none = none` there -/
+example : let data : List Param := [
+      ⟨cs!"sim.name", .str, 0, .leaf (.s (cs!"he said \"hi\" C:\\x")), none, []⟩,
+      ⟨cs!"sim.output", .bool, 0, .leaf (.b true), none, []⟩,
+      ⟨cs!"matrix", .int, 32, .arr [.arr [.leaf (.i 1), .leaf (.i 2), .leaf (.i 3)], .arr [.leaf (.i 4), .leaf (.i (-5)), .leaf (.i 6)]],
+        some (cs!"cm"), []⟩]
+    let o : COpts := ⟨cs!"CONFIG_H", [cs!"sim.name"], [cs!"matrix"], true⟩
+    (∀ p ∈ data, ParamOKC o.rename o.define p) ∧ (∀ p ∈ data, ParamOKRust true p) ∧ clean o.guard = true ∧
+      ((exportC o data).bind (readC bC o.guard)).isSome = true ∧
+      ((exportCpp o data).bind (readC bCpp o.guard)).isSome = true ∧
+      ((exportRust true data).bind readRust).isSome = true := by
+  intro data o
+  refine ⟨?_, ?_, by decide, by decide +kernel, by decide +kernel, by decide +kernel⟩
+  · intro p hp
+    simp only [data, List.mem_cons, List.mem_nil_iff, or_false] at hp
+    rcases hp with rfl | rfl | rfl
+    · exact ⟨by decide, by decide, by simp [ValOK, ScalarOK], by simp [NoNL]; decide, ⟨[], by decide, by decide⟩,
+        fun _ => ⟨_, rfl, by intro t h; cases h⟩⟩
+    · exact ⟨by decide, by decide, by simp [ValOK, ScalarOK], by simp [NoNL], ⟨[], by decide, by decide⟩,
+        fun h => absurd h (by decide)⟩
+    · exact ⟨by decide, by decide, by simp [ValOK, ValsOK, ScalarOK], by simp [NoNL, NoNLs], ⟨[2, 3], by decide, by decide⟩,
+        fun h => absurd h (by decide)⟩
+  · intro p hp
+    simp only [data, List.mem_cons, List.mem_nil_iff, or_false] at hp
+    rcases hp with rfl | rfl | rfl
+    · exact ⟨by decide, by decide, by simp [ValOK, ScalarOK], by simp [NoNL]; decide, ⟨[], by decide, by decide⟩⟩
+    · exact ⟨by decide, by decide, by simp [ValOK, ScalarOK], by simp [NoNL], ⟨[], by decide, by decide⟩⟩
+    · exact ⟨by decide, by decide, by simp [ValOK, ValsOK, ScalarOK], by simp [NoNL, NoNLs], ⟨[2, 3], by decide, by decide⟩⟩
 
 /-- C / C++ : for EVERY parameter (any name without `[` / blank after renaming, any DIP kind and width,
     any rank and size, any string content) the exported `const` / `constexpr` declaration line, read
     by the C reader model, is exactly the expected symbol: mapped name, the declared type
     `_parse_dtype` chose, the shape, the value in row-major nesting.  Both sides are undefined
     exactly when `_parse_dtype` has no type for the node. -/
-theorem C19_roundtrip_c_line_partial (backend kw : Str) (hb : backend = bC ∨ backend = bCpp)
+theorem C19_roundtrip_c_line (backend kw : Str) (hb : backend = bC ∨ backend = bCpp)
     (hkw : kw = cs!"const" ∨ kw = cs!"constexpr") (ren : Bool) (p : Param) (sh : List Nat)
     (hn : ∀ ch ∈ rename ren p.name, ch ≠ '[' ∧ ch ≠ ' ')
     (hv : ValOK p.kind p.value) (hr : rectShape p.value = some sh) (h0 : 0 ∉ sh) :
@@ -119,7 +154,7 @@ theorem C19_roundtrip_c_line_partial (backend kw : Str) (hb : backend = bC ∨ b
   readConstLine_lineConst backend kw hb hkw ren p sh hn hv hr h0
 
 /-- Rust: the same for `pub const NAME: [[T; n]; m] = [[…]];` lines -/
-theorem C19_roundtrip_rust_line_partial (ren : Bool) (p : Param) (sh : List Nat)
+theorem C19_roundtrip_rust_line (ren : Bool) (p : Param) (sh : List Nat)
     (hn : ∀ ch ∈ rename ren p.name, ch ≠ ':')
     (hv : ValOK p.kind p.value) (hr : rectShape p.value = some sh) (h0 : 0 ∉ sh) :
     (lineRust ren p).bind readRustLine = expectedSym bRust ren false p :=
@@ -169,6 +204,34 @@ example :
         (some [3, 2, 1])).map flatten =
       some [['1'], ['2'], ['3'], ['4'], ['5'], ['6'], ['7'], ['8'], ['9'], ['a'], ['b'], ['c']] := by
   decide
+
+/-- the Fortran declaration-line statement is FALSE on the code as it is (known findings
+    `fortran:real-literal-kind`, `fortran:int-literal-kind`): `real(kind=8), parameter :: E = 0.1;`
+    holds a default-kind literal (the reader marks the value as narrowed to single precision), and
+    `integer(kind=8), parameter :: N = 2399495729;` is rejected (default-kind literal too big) -/
+theorem C19_fortran_literal_kind_counterexample :
+    ¬ (∀ p : Param, ((lineFortran true p).bind readFortranLine).map (fun s => (s.narrow, s.shape)) =
+        (expectedSym bFortran true false p).map (fun s => (s.narrow, s.shape))) := by
+  intro h
+  have := h ⟨cs!"e", .float, 64, .leaf (.f (cs!"0.1")), none, []⟩
+  revert this
+  decide
+
+theorem C19_fortran_int_literal_counterexample :
+    ¬ (∀ p : Param, ((lineFortran true p).bind readFortranLine).isSome =
+        (expectedSym bFortran true false p).isSome) := by
+  intro h
+  have := h ⟨cs!"num_groups", .int, 64, .leaf (.i 2399495729), none, []⟩
+  revert this
+  decide
+
+/-- (test) a 2x3 integer matrix and a string with a quote do read back through the Fortran line reader -/
+example :
+    ((lineFortran true ⟨cs!"m", .int, 32, .arr [.arr [.leaf (.i 1), .leaf (.i 2), .leaf (.i 3)],
+        .arr [.leaf (.i 4), .leaf (.i 5), .leaf (.i 6)]], none, []⟩).bind readFortranLine).map (·.shape) = some [2, 3] ∧
+    ((lineFortran true ⟨cs!"s", .str, 0, .arr [.leaf (.s (cs!"a \"b\"")), .leaf (.s (cs!"c"))], none, []⟩).bind
+        readFortranLine).isSome = true := by
+  decide +kernel
 
 /-! ## Bash -/
 
